@@ -636,6 +636,9 @@ def build_common_enums(fam):
     E.append(fam.add(Enum("ECatch8", "u8", [dict(name="A", disc=0), dict(name="B", disc=1), dict(name="C", disc=5), dict(name="Other", catch_all=True)])))
     E.append(fam.add(Enum("EDefault8", "u8", [dict(name="A", disc=0, default=True), dict(name="B", disc=1), dict(name="C", disc=2)])))
     E.append(fam.add(Enum("EAlt8", "u8", [dict(name="A", disc=0), dict(name="B", disc=1, alts=[2, 3, 6]), dict(name="C", disc=4)])))
+    # catch-all combined with alternatives (pack must still emit the declared discriminant, not an alternative)
+    E.append(fam.add(Enum("EAltCatch8", "u8", [dict(name="A", disc=0), dict(name="B", disc=2, alts=[3, 6]), dict(name="C", disc=4), dict(name="Other", catch_all=True)])))
+    E.append(fam.add(Enum("EAltCatch16", "u16", [dict(name="A", disc=1, alts=[0x0102, 7]), dict(name="B", disc=0x1234), dict(name="Other", catch_all=True)])))
     E.append(fam.add(Enum("EBit1", "u8", [dict(name="Off", disc=0), dict(name="On", disc=1)])))
     E.append(fam.add(Enum("ESparse8", "u8", [dict(name="A", disc=1), dict(name="B", disc=0x80), dict(name="C", disc=0xff)], wire_bits=8)))
     E.append(fam.add(Enum("EPlain16", "u16", [dict(name="A", disc=0), dict(name="B", disc=0x0102), dict(name="C", disc=0xffff)])))
